@@ -2,6 +2,9 @@ mod parse;
 mod variance;
 pub mod walk;
 
+#[cfg(olson_sean_k_wax_verif)]
+pub use crate::token::variance::verif_variance_op;
+
 use itertools::Itertools as _;
 use std::borrow::Cow;
 use std::cmp;
